@@ -42,7 +42,8 @@ class Out(object):
 
 
 def obs(s):
-    return (s['master'], [(p['id'], p['cash'], sorted((q['asset'], q['buyQ'] - q['sellQ']) for q in p['positions']),
+    # a holding is its quantity and the price it is carried at (a refused request may advance clocks, nothing else)
+    return (s['master'], [(p['id'], p['cash'], sorted((q['asset'], q['buyQ'] - q['sellQ'], q['price']) for q in p['positions']),
                            [tuple(x) for x in p['queue']], p['hist_len']) for p in s['pfs']])
 
 
